@@ -449,10 +449,17 @@ func apply(reg *Registry, op string, par Par, args []Tensor, cp func([]int) []in
 			conf = &optimizers.SGDConfig{LearningRate: par.K.Float()}
 		}
 		w := a
-		opt := optimizers.NewSGD(conf)
-		if conf != nil {
-			conf.LearningRate = 12345 // overwritten after construction: the optimizer must keep the rate it was built with
+		o, err := reg.get(par.Inst, func() (any, error) {
+			opt := optimizers.NewSGD(conf)
+			if conf != nil {
+				conf.LearningRate = 12345 // overwritten after construction: the optimizer must keep the rate it was built with
+			}
+			return opt, nil
+		})
+		if err != nil {
+			return nil, err
 		}
+		opt := o.(*optimizers.SGD)
 		if err := opt.Update(&w); err != nil {
 			return nil, err
 		}
